@@ -139,6 +139,48 @@ theorem print_pure : PrintPureStatement initialCollection := by
     rw [show (printSchema c.1 c.2.1 c.2.2 initialCollection).2 = initialCollection from printSchema_state_fixed _ _ _ _]
     rw [ih]
 
+/-! #### all four options: `include_introspection` too -/
+
+/-- serialising with ALL options (indent, descriptions, custom schema directives, introspection) is a pure function of
+    schema, options and the library's constants -/
+def PrintPureStatementX (init : PrinterState) : Prop :=
+  ∀ calls : List (Opts × Bool × Builtins × SchemaD × Apps),
+    runHistoryX init calls = calls.map fun c => (printSchemaX c.1 c.2.1 c.2.2.1 c.2.2.2.1 c.2.2.2.2 init).1
+
+/-- without the option the extended printer is the printer -/
+theorem printSchemaX_off (o : Opts) (b : Builtins) (s : SchemaD) (apps : Apps) (st : PrinterState) :
+    printSchemaX o false b s apps st = printSchema o s apps st := by
+  simp only [printSchemaX, printSchema, mapSt, Bool.false_eq_true, if_false, List.append_nil, List.cons_append, List.nil_append, List.append_assoc]
+
+theorem printSchemaX_state_fixed (o : Opts) (intro : Bool) (b : Builtins) (s : SchemaD) (apps : Apps) (ns : List String) :
+    (printSchemaX o intro b s apps (.collection ns)).2 = .collection ns := by
+  simp only [printSchemaX]
+  rw [printSchemaDefinition_coll]
+  rw [mapSt_coll _ ns (fun i d => printDirectiveDefinition_coll s o apps d ns)]
+  rw [mapSt_coll _ ns (fun i d => printDirectiveDefinition_coll s o apps d ns)]
+  exact mapSt_coll _ ns (fun i t => printType_coll s o apps t ns) _ 0
+
+/-- **print_pure_all_options** — `print_pure` for the whole option space of the property (`include_introspection`
+    included), for EVERY collection-valued state: the k-th output of any history is the output of that call alone. -/
+theorem print_pure_all_options (ns : List String) : PrintPureStatementX (.collection ns) := by
+  intro calls
+  induction calls with
+  | nil => rfl
+  | cons c rest ih =>
+    simp only [runHistoryX, List.map]
+    rw [printSchemaX_state_fixed]
+    rw [ih]
+
+/-- `print_pure` for every collection-valued state (not only the initial one) -/
+theorem print_pure_any_collection (ns : List String) : PrintPureStatement (.collection ns) := by
+  intro calls
+  induction calls with
+  | nil => rfl
+  | cons c rest ih =>
+    simp only [runHistory, List.map]
+    rw [printSchema_state_fixed]
+    rw [ih]
+
 /- …and it is FALSE for today's generator-valued state: `PrintPureStatement initialGenerator` would make the
     two calls of `print_pure_refuted_today` agree. (State-level witness below; the text-level witness is the
     replay `history-dependent:*` found by the history oracle on the unfixed tree.) -/
